@@ -18,35 +18,37 @@ Trace == ndJsonDeserialize("trace.ndjson")
 
 VARIABLES v2,        \* the v2 tree of the current case
           decodable, \* it is a decodable v2 file
+          lay,       \* the layout the command ran in
           migrated,  \* migrate was accepted for this case (so the load is judged)
           skipping, rej, l
-tvars == <<v2, decodable, migrated, skipping, rej, l>>
+tvars == <<v2, decodable, lay, migrated, skipping, rej, l>>
 
 Ev == Trace[l]
+ToSet(q) == {q[i] : i \in 1..Len(q)}
 IsEvent(e) == l <= Len(Trace) /\ Trace[l].op = e /\ l' = l + 1
 
-TraceInit == v2 = << >> /\ decodable = FALSE /\ migrated = FALSE /\ skipping = FALSE /\ rej = << >> /\ l = 1
+TraceInit == v2 = << >> /\ decodable = FALSE /\ lay = << >> /\ migrated = FALSE /\ skipping = FALSE /\ rej = << >> /\ l = 1
              /\ TLCSet(1, << >>)
 
-CCase == v2' = Ev.v2 /\ decodable' = Ev.decodable /\ migrated' = FALSE /\ skipping' = FALSE /\ UNCHANGED rej
+CCase == v2' = Ev.v2 /\ decodable' = Ev.decodable /\ lay' = Ev.lay /\ migrated' = FALSE /\ skipping' = FALSE /\ UNCHANGED rej
 
 MigrateOK ==
   /\ ~Ev.panic                                   \* never a crash
   /\ Ev.in_after = Ev.in_before                  \* the input file is left unmodified
   /\ IF decodable
-     THEN Ev.exit = 0 /\ Ev.wrote /\ TreeOK(v2, Ev.v3)
-     ELSE TRUE                                   \* not a v2 file: nothing more is promised (strict decoding makes
+     THEN Ev.exit = 0 /\ Ev.wrote /\ TreeOK(v2, Ev.v3) /\ FilesOK(lay, ToSet(Ev.changed))
+     ELSE "input" \notin ToSet(Ev.changed)                                   \* not a v2 file: nothing more is promised (strict decoding makes
                                                  \* the command refuse it today; the statement does not require that)
-CMigrate == migrated' = decodable /\ UNCHANGED <<v2, decodable>>
+CMigrate == migrated' = decodable /\ UNCHANGED <<v2, decodable, lay>>
 
 LoadOK == migrated => Ev.exit = 0 /\ ~Ev.panic /\ LoadedOK(v2, Ev.eff)
-CLoad == UNCHANGED <<v2, decodable, migrated>>
+CLoad == UNCHANGED <<v2, decodable, lay, migrated>>
 
 Step(e, ok, act) ==
   /\ IsEvent(e)
-  /\ IF skipping THEN UNCHANGED <<v2, decodable, migrated, skipping, rej>>
+  /\ IF skipping THEN UNCHANGED <<v2, decodable, lay, migrated, skipping, rej>>
      ELSE IF ok THEN act /\ UNCHANGED <<skipping, rej>>
-     ELSE rej' = Append(rej, l) /\ TLCSet(1, Append(rej, l)) /\ skipping' = TRUE /\ UNCHANGED <<v2, decodable, migrated>>
+     ELSE rej' = Append(rej, l) /\ TLCSet(1, Append(rej, l)) /\ skipping' = TRUE /\ UNCHANGED <<v2, decodable, lay, migrated>>
 
 TraceNext ==
   \/ IsEvent("case") /\ CCase
